@@ -186,6 +186,8 @@ def shard(sh: Shard, seed, wseed, regime, nhist, nev):
     from vlib.aworld import ScenarioHang, Watchdog, World
     from vlib.rig import SpaRig
 
+    for k in range(2 if nhist < 100 else 20):
+        two_connections(sh, seed, wseed * 1000 + k)
     for hi in range(nhist):
         r = rng("C07", seed, wseed, hi, regime)
         w = World(r, "B", max_iter=5_000_000, wall_cap=600)
@@ -259,6 +261,84 @@ def shard(sh: Shard, seed, wseed, regime, nhist, nev):
     sh.sample({"regime": regime, "events_per_history": nev, "kinds": "statp|rferr|wcerr|orphan-reply|unknown|garbage|broken-frame|misaddressed(5 variants)|nested|hello|waiter|burst"})
 
 
+def two_connections(sh: Shard, seed, idx):
+    """Two connections to two spas in one process: a datagram delivered to one connection's endpoint
+    is never seen, consumed or acknowledged by the other connection's consumers."""
+    import struct
+
+    from geckolib.driver import GeckoPartialStatusBlockProtocolHandler as P
+    from vlib.aworld import ScenarioHang, Watchdog, World
+    from vlib.rig import CLIENT_ID, SPA_ID, SpaRig
+
+    r = rng("C07two", seed, idx)
+    w = World(r, "B", max_iter=5_000_000, wall_cap=600)
+    try:
+        a = SpaRig(w)
+        b = SpaRig(w, addr=("10.0.0.3", 10022))
+
+        async def main():
+            if not (await a.connect() and await b.connect()):
+                sh.inconc("two-connection scenario: a rig could not connect")
+                return
+            await a.quiesce()
+            await b.quiesce()
+            w.set_regime(r.choice(["B", "J"]))
+            sh.evaluations += 1
+            if a.protocol.queue is b.protocol.queue:
+                sh.violation("C07:two-connections:shared-queue", "two connections in one process share one receive queue object", {})
+                return
+            for rounds in range(r.randrange(3, 8)):
+                tgt, other = (a, b) if r.random() < 0.5 else (b, a)
+                e_t, e_o = len(tgt.protocol.queue.events), len(other.protocol.queue.events)
+                d0 = len(w.net.dgrams)
+                blk_o = other.spa.struct.status_block
+                ev_o = len(other.events)
+                n = r.randrange(1, 5)
+                for k in range(n):
+                    if r.random() < 0.7:
+                        pos = r.randrange(300, 700)
+                        ch = [(pos, struct.pack(">H", 0x4000 + r.randrange(0x3FFF)))]
+                        parms = (tgt.transport.local[0], tgt.transport.local[1], CLIENT_ID, SPA_ID)
+                        blk = bytearray(tgt.sim.block)
+                        blk[pos : pos + 2] = ch[0][1]
+                        tgt.sim.set_block(bytes(blk))
+                        tgt.sim.say(P.report_changes(tgt.sim.sock, ch, parms=parms), parms)
+                    else:
+                        w.net.inject(frame(SPA_ID, CLIENT_ID, b"RFERR"), tgt.sim.addr, tgt.transport)
+                    await asyncio.sleep(r.choice([0, 0.03, 0.12]))
+                await tgt.quiesce(settle=0.3)
+                await other.quiesce(settle=0.3)
+                sh.evaluations += 1
+                sh.count("two_connection_rounds")
+                wit = {"scenario": f"{seed}:{idx}", "target": tgt.sim.addr[0], "other": other.sim.addr[0], "sent": n}
+                seen_o = [ev for ev in other.protocol.queue.events[e_o:] if ev[0] == "put"]
+                if seen_o:
+                    sh.violation("C07:two-connections:cross-delivery", f"{len(seen_o)} datagram(s) sent to the connection with {tgt.sim.addr[0]} entered the receive queue of the connection with {other.sim.addr[0]}", wit)
+                if other.spa.struct.status_block != blk_o or len(other.events) != ev_o:
+                    sh.violation("C07:two-connections:cross-effect", "traffic for one connection changed the status block / raised events on the other connection", wit)
+                acks_o = [d for d in w.net.dgrams[d0:] if d.dir == "c2s" and d.verb == "STATQ" and d.src == other.transport.local]
+                if acks_o:
+                    sh.violation("C07:two-connections:cross-effect", f"the other connection sent {len(acks_o)} acknowledgement(s) for updates it was not sent", wit)
+                if tgt.spa.struct.status_block != tgt.sim.block:
+                    sh.violation("C07:two-connections:not-applied", "updates sent to a connection were not applied by it while a second connection exists in the process", wit)
+            sh.nontrivial(f"two:{seed}:{idx}")
+
+        try:
+            w.run(main())
+        except ScenarioHang:
+            sh.inconc("scenario hang")
+        except Watchdog as e:
+            sh.inconc(f"watchdog {e}")
+        except Exception as e:
+            d = describe_exc(e)
+            if d["where"] == "repo":
+                sh.violation("C07:raise", f"{d['type']}: {d['msg']}", d)
+            else:
+                raise
+    finally:
+        w.close()
+
+
 def main(tier, seed):
     run = Run("C07", tier, seed, "exploration")
     nh, nev = (12, 50) if tier == "quick" else (300, 90)
@@ -272,6 +352,7 @@ def main(tier, seed):
     for v in ("ip", "port", "src-id", "dst-id", "both-ids-swapped"):
         run.need(f"misaddressed:{v}" in kinds, f"mis-addressed variant {v} not exercised")
     run.need(run.counters.get("unhandled_discards", 0) > 50 and run.counters.get("claimed_pops", 0) > 200, "too few pops observed")
+    run.need(run.counters.get("two_connection_rounds", 0) > 50, "two connections in one process hardly exercised")
     run.need(run.counters.get("histories_with_suspending_client_handler", 0) > 5, "no history with a suspending client handler")
     return run.finish(
         rule="arrival histories on a real connected client mixing addressed partial updates, RFERR, WCERR, replies without a waiter, unknown verbs, unframed garbage, broken frames, nested frames, hello, five kinds of mis-addressed packets and bursts, with 0-2 waiters active, under regimes B/J/H and exact timer ties (T); one evaluation = one datagram that went through the receive queue (or one mis-addressed probe); distinct = distinct histories",
